@@ -21,7 +21,7 @@ RULE = (
     "(screen hash, replacement kind, model, scorer, n_chunks, batch); non-trivial = >=1 masked row and >=1 observed row"
 )
 ASSUMPTIONS = ["observed values exactly 0 or 1 are outside the interaction model's transform (logit gives +-inf) and are not generated for it", "both members of a pair use the same seed and the same global numpy seed so that only masked values differ"]
-REQUIRED = {"two_batch_histories": {"quick": 100, "thorough": 1200}, "cli_pairs": {"quick": 1, "thorough": 40}, "pairs_compared": {"quick": 250, "thorough": 3000}, "artefacts_compared": {"quick": 1200, "thorough": 15000}, "training_set_checks": {"quick": 250, "thorough": 3000}, "refusals_checked": {"quick": 2000, "thorough": 25000}}
+REQUIRED = {"training_sets_with_values_above_one": {"quick": 40, "thorough": 500}, "two_batch_histories": {"quick": 100, "thorough": 1200}, "cli_pairs": {"quick": 1, "thorough": 40}, "pairs_compared": {"quick": 250, "thorough": 3000}, "artefacts_compared": {"quick": 1200, "thorough": 15000}, "training_set_checks": {"quick": 250, "thorough": 3000}, "refusals_checked": {"quick": 2000, "thorough": 25000}}
 N_PAIRS = {"quick": 640, "thorough": 6400}
 
 
@@ -207,7 +207,17 @@ def run_shard(rec, tier, seed, shard, nshards):
         handed = []
         for ch in range(2):
             model = MODELS[mname](experiment_space=ExperimentSpace.from_screen(screen), n_embedding_dimensions=cfg["D"])
-            model.add_observations(sub)
+            try:
+                model.add_observations(sub)
+            except ValueError as e:
+                o_ = np.asarray(sub.observations, dtype=float)
+                if bool(np.all(np.isfinite(o_))) and bool(np.all(o_ >= 0)) and bool(np.all(sub.observation_mask)):
+                    # finite, non-negative, fully observed: nothing the model documents refusing
+                    rec.violation("C04/%s/refuses-legitimate-training-set" % mname, "%s.add_observations raised %r on %d observed rows that are all finite and non-negative (min %r, max %r)" % (mname, e, int(o_.size), float(o_.min()), float(o_.max())), {"observations": o_.tolist()[:40]})
+                raise
+            rec.count("training_sets_accepted")
+            if bool(np.any(np.asarray(sub.observations) > 1.0)):
+                rec.count("training_sets_with_values_above_one")
             wm = model.wrapped_model
             handed.append([(int(c), int(a), int(b), float(y).hex()) for c, a, b, y in zip(wm.cline, wm.dd1, wm.dd2, wm.y)])
             if ch == 0:
